@@ -81,9 +81,8 @@ Definition model_functions : list (string * (list (string * list (string * bool)
     ("set recv.entries := append(recv.entries,p0)", [])
   ], []));
   ("journal.Revert", ([
-    ("call delete(recv.dirties,recv.entries[(len(recv.entries)-1)].Dirtied())", [("eq(0,recv.dirties[recv.entries[(len(recv.entries)-1)].Dirtied()])", true); ("eq(nil,recv.entries[(len(recv.entries)-1)].Dirtied())", false); ("loop", true)]);
     ("call recv.entries[(len(recv.entries)-1)].Revert(p0)", [("loop", true)]);
-    ("set recv.dirties[recv.entries[(len(recv.entries)-1)].Dirtied()]--", [("eq(nil,recv.entries[(len(recv.entries)-1)].Dirtied())", false); ("loop", true)]);
+    ("dec recv.dirties[recv.entries[(len(recv.entries)-1)].Dirtied()] (delete the entry at zero)", [("eq(nil,recv.entries[(len(recv.entries)-1)].Dirtied())", false); ("loop", true)]);
     ("set recv.entries := recv.entries[:p1]", [])
   ], []));
   ("journal.sortedDirties", ([
@@ -117,20 +116,21 @@ Definition model_functions : list (string * (list (string * list (string * bool)
     ("set recv.getStateObject(p0).account.BalanceWei := new(big.Int)", [("eq(nil,recv.getStateObject(p0))", false)])
   ], [[[("eq(nil,recv.getStateObject(p0))", false)]]]));
   ("StateDB.AddAddressToAccessList", ([
-    ("journal pre accessListAddAccountChange{p0}", [("recv.accessList.AddAddress(p0)", true)])
+    ("journal pre accessListAddAccountChange{address=p0}", [("recv.accessList.AddAddress(p0)", true)])
   ], []));
   ("StateDB.AddSlotToAccessList", ([
     ("call recv.accessList.AddSlot(p0,p1)", []);
-    ("journal pre accessListAddAccountChange{p0}", [("recv.accessList.AddSlot(p0,p1)#0", true)]);
+    ("journal pre accessListAddAccountChange{address=p0}", [("recv.accessList.AddSlot(p0,p1)#0", true)]);
     ("journal pre accessListAddSlotChange{address=p0;slot=p1}", [("recv.accessList.AddSlot(p0,p1)#1", true)])
   ], []));
   ("StateDB.Snapshot", ([
     ("set recv.nextRevisionID++", []);
-    ("set recv.validRevisions := append(recv.validRevisions,revision{recv.Journal.Length();recv.nextRevisionID})", [])
+    ("set recv.validRevisions := append(recv.validRevisions,revision{id=recv.nextRevisionID;journalIndex=recv.Journal.Length()})", [])
   ], []));
   ("StateDB.RevertToSnapshot", ([
     ("call recv.Journal.Revert(recv,recv.validRevisions[sort.Search(len(recv.validRevisions),func)].journalIndex)", [("eq(len(recv.validRevisions),sort.Search(len(recv.validRevisions),func))", false); ("eq(p0,recv.validRevisions[sort.Search(len(recv.validRevisions),func)].id)", true)]);
-    ("panic", [("or(eq(len(recv.validRevisions),sort.Search(len(recv.validRevisions),func)),not(eq(p0,recv.validRevisions[sort.Search(len(recv.validRevisions),func)].id)))", true)]);
+    ("panic", [("eq(len(recv.validRevisions),sort.Search(len(recv.validRevisions),func))", true)]);
+    ("panic", [("eq(p0,recv.validRevisions[sort.Search(len(recv.validRevisions),func)].id)", false)]);
     ("set recv.validRevisions := recv.validRevisions[:sort.Search(len(recv.validRevisions),func)]", [("eq(len(recv.validRevisions),sort.Search(len(recv.validRevisions),func))", false); ("eq(p0,recv.validRevisions[sort.Search(len(recv.validRevisions),func)].id)", true)])
   ], []));
   ("StateDB.Commit", ([
@@ -141,8 +141,11 @@ Definition model_functions : list (string * (list (string * list (string * bool)
     ("call recv.keeper.DeleteAccount(p0,OBJ.Address())", [("OBJ.Suicided", true); ("eq(nil,OBJ)", false); ("range(recv.Journal.sortedDirties())", true)]);
     ("call recv.keeper.SetAccount(p0,OBJ.Address(),OBJ.account.ToNative())", [("OBJ.Suicided", false); ("eq(nil,OBJ)", false); ("range(recv.Journal.sortedDirties())", true)]);
     ("call recv.keeper.SetCode(p0,OBJ.CodeHash(),OBJ.code)", [("OBJ.DirtyCode", true); ("OBJ.Suicided", false); ("eq(nil,OBJ)", false); ("eq(nil,OBJ.code)", false); ("range(recv.Journal.sortedDirties())", true)]);
-    ("call recv.keeper.SetState(p0,OBJ.Address(),KEY,OBJ.DirtyStorage[KEY].Bytes())", [("OBJ.Suicided", false); ("and(and(eq(nil,recv.writeToCommitCtxFromCacheCtx),p1),eq(OBJ.DirtyStorage[KEY],OBJ.OriginStorage[KEY]))", false); ("eq(nil,OBJ)", false); ("range(OBJ.DirtyStorage.SortedKeys())", true); ("range(recv.Journal.sortedDirties())", true)]);
-    ("set OBJ.OriginStorage[KEY] := OBJ.DirtyStorage[KEY]", [("OBJ.Suicided", false); ("and(and(eq(nil,recv.writeToCommitCtxFromCacheCtx),p1),eq(OBJ.DirtyStorage[KEY],OBJ.OriginStorage[KEY]))", false); ("eq(nil,OBJ)", false); ("p1", true); ("range(OBJ.DirtyStorage.SortedKeys())", true); ("range(recv.Journal.sortedDirties())", true)]);
+    ("call recv.keeper.SetState(p0,OBJ.Address(),KEY,OBJ.DirtyStorage[KEY].Bytes())", [("OBJ.Suicided", false); ("eq(OBJ.DirtyStorage[KEY],OBJ.OriginStorage[KEY])", false); ("eq(nil,OBJ)", false); ("range(OBJ.DirtyStorage.SortedKeys())", true); ("range(recv.Journal.sortedDirties())", true)]);
+    ("call recv.keeper.SetState(p0,OBJ.Address(),KEY,OBJ.DirtyStorage[KEY].Bytes())", [("OBJ.Suicided", false); ("eq(nil,OBJ)", false); ("eq(nil,recv.writeToCommitCtxFromCacheCtx)", false); ("range(OBJ.DirtyStorage.SortedKeys())", true); ("range(recv.Journal.sortedDirties())", true)]);
+    ("call recv.keeper.SetState(p0,OBJ.Address(),KEY,OBJ.DirtyStorage[KEY].Bytes())", [("OBJ.Suicided", false); ("eq(nil,OBJ)", false); ("p1", false); ("range(OBJ.DirtyStorage.SortedKeys())", true); ("range(recv.Journal.sortedDirties())", true)]);
+    ("set OBJ.OriginStorage[KEY] := OBJ.DirtyStorage[KEY]", [("OBJ.Suicided", false); ("eq(OBJ.DirtyStorage[KEY],OBJ.OriginStorage[KEY])", false); ("eq(nil,OBJ)", false); ("p1", true); ("range(OBJ.DirtyStorage.SortedKeys())", true); ("range(recv.Journal.sortedDirties())", true)]);
+    ("set OBJ.OriginStorage[KEY] := OBJ.DirtyStorage[KEY]", [("OBJ.Suicided", false); ("eq(nil,OBJ)", false); ("eq(nil,recv.writeToCommitCtxFromCacheCtx)", false); ("p1", true); ("range(OBJ.DirtyStorage.SortedKeys())", true); ("range(recv.Journal.sortedDirties())", true)]);
     ("set recv.Journal.dirties[ADDR] := 0", [("range(recv.Journal.sortedDirties())", true)])
   ], []));
   ("StateDB.AddBalance", ([
@@ -208,14 +211,28 @@ Definition model_functions : list (string * (list (string * list (string * bool)
   ("stateObject.setState", ([
     ("set recv.DirtyStorage[p0] := p1", [])
   ], []));
+  ("stateObject.isEmpty", ([
+
+  ], [[[("bytes.Equal(recv.account.CodeHash,emptyCodeHash)", true); ("eq(0,recv.account.BalanceWei.Sign())", true); ("eq(0,recv.account.Nonce)", true)]]]));
+  ("StateDB.Empty", ([
+
+  ], [[[("eq(nil,recv.getStateObject(p0))", true)]; [("recv.getStateObject(p0).isEmpty()", true)]]]));
+  ("StateDB.Exist", ([
+
+  ], [[[("eq(nil,recv.getStateObject(p0))", false)]]]));
+  ("StateDB.HasSuicided", ([
+
+  ], [[[("eq(nil,recv.getStateObject(p0))", false); ("recv.getStateObject(p0).Suicided", true)]]]));
   ("accessList.AddAddress", ([
     ("set recv.addresses[p0] := -1", [("has(recv.addresses[p0])", false)])
   ], [[[("has(recv.addresses[p0])", false)]]]));
   ("accessList.AddSlot", ([
-    ("set recv.addresses[p0] := len(recv.slots)", [("or(eq(-1,val(recv.addresses[p0])),not(has(recv.addresses[p0])))", true)]);
-    ("set recv.slots := append(recv.slots,map[common.Hash]struct{}{slot={}})", [("or(eq(-1,val(recv.addresses[p0])),not(has(recv.addresses[p0])))", true)]);
+    ("set recv.addresses[p0] := len(recv.slots)", [("eq(-1,val(recv.addresses[p0]))", true)]);
+    ("set recv.addresses[p0] := len(recv.slots)", [("has(recv.addresses[p0])", false)]);
+    ("set recv.slots := append(recv.slots,map[common.Hash]struct{}{p1={}})", [("eq(-1,val(recv.addresses[p0]))", true)]);
+    ("set recv.slots := append(recv.slots,map[common.Hash]struct{}{p1={}})", [("has(recv.addresses[p0])", false)]);
     ("set recv.slots[val(recv.addresses[p0])][p1] := struct{}{}", [("eq(-1,val(recv.addresses[p0]))", false); ("has(recv.addresses[p0])", true); ("has(recv.slots[val(recv.addresses[p0])][p1])", false)])
-  ], [[[("has(recv.addresses[p0])", false); ("or(eq(-1,val(recv.addresses[p0])),not(has(recv.addresses[p0])))", true)]]; [[("eq(-1,val(recv.addresses[p0]))", false); ("has(recv.addresses[p0])", true); ("has(recv.slots[val(recv.addresses[p0])][p1])", false)]; [("or(eq(-1,val(recv.addresses[p0])),not(has(recv.addresses[p0])))", true)]]]));
+  ], [[[("has(recv.addresses[p0])", false)]]; [[("eq(-1,val(recv.addresses[p0]))", true)]; [("has(recv.addresses[p0])", false)]; [("has(recv.slots[val(recv.addresses[p0])][p1])", false)]]]));
   ("accessList.DeleteSlot", ([
     ("call delete(recv.slots[val(recv.addresses[p0])],p1)", [("has(recv.addresses[p0])", true)]);
     ("panic", [("has(recv.addresses[p0])", false)]);
